@@ -7,7 +7,7 @@ HOOK_COMMITS = []
 
 ENGINES = [
     {'name': 'E1-input-config-explorer', 'path': 'vf/core.py, vf/univ.py, vf/oracles.py',
-     'serves_properties': ['C01', 'C02', 'C03', 'C09', 'C10', 'C11'],
+     'serves_properties': ['C01', 'C02', 'C03', 'C04', 'C05', 'C09', 'C10', 'C11'],
      'kind_free_text': 'explicit enumeration of every input shape/value/configuration inside stated bounds; real code run on each; compared with a reference model on every case'},
 ]
 
@@ -49,6 +49,17 @@ CHECKS['C11'] = (E1, 'E1-input-config-explorer',
     'use_pruning, and distance_matrix over 3-collections in list-of-2D and 3-D containers, both engines, against the path-definition reference with vector point distance; d=1 also against the univariate routine.',
     'Trusted: vf/oracles.py. Two open findings (K01 best path under psi end-relaxation, K02 C warping_paths psi end-relaxation with a window) are matched narrowly by tags.',
     'DESIGN.md section 4 C11')
+
+CHECKS['C04'] = (E1, 'E1-input-config-explorer',
+    'Accumulated-cost matrices from four producers (Python warping_paths, C full matrix, C compact array + dtw_expand_wps, C compact array + dtw_expand_wps_slice for EVERY slice of small shapes) are compared cell by cell '
+    'with a reference table of per-cell optima, under exactly the freedoms C04 names (cells above max_dist, -1 marks in the relaxed suffix, infinite outside the band); the returned distance is compared with the distance-only routine; ndim 1-2.',
+    'Trusted: vf/oracles.py cell table. Row 0 / column 0 are compared between engines only. A native crash of a worker is reported as a violation with the case from its breadcrumb.',
+    'DESIGN.md section 4 C04')
+CHECKS['C05'] = (E1, 'E1-input-config-explorer',
+    'Paths from 9 routes (best_path on Python/C matrices, best_path2, internal-representation best_path with penalty, warping_path, warping_path_fast/_ndim, best_path_compact, warp, and dtw_best_path_customstart from every finite in-band cell) '
+    'are checked for admissibility (steps, band, max_step, relaxed corners) and for accumulated cost == reference distance == reported distance, over all pairs up to length 3 x settings cross and all shapes up to 5x5 (6x6).',
+    'Trusted: vf/oracles.py. One open finding (K01: best_path/best_path2/best_path_compact called directly on -1 marked matrices under psi end-relaxation).',
+    'DESIGN.md section 4 C05')
 
 ALL = ['C%02d' % i for i in range(1, 21)]
 NOT_APPLICABLE = {p: PENDING for p in ALL if p not in CHECKS}
